@@ -228,6 +228,16 @@ def do_sasview(c):
         model.setParam(name + ".npts", int(a["n"]))
         model.setParam(name + ".nsigmas", num(a["nsigma"]))
         model.setParam(name + ".type", a["type"])
+    # another dispersible parameter of the same object is then given quite different settings: each parameter has
+    # its own distribution
+    others = [o for o in model._model_info.parameters.call_parameters
+              if o.polydisperse and o.name != name and o.name in model.params and o.name in model.dispersion]
+    if others:
+        o = others[c["tid"] % len(others)]
+        model.setParam(o.name + ".width", 0.33)
+        model.setParam(o.name + ".npts", 7)
+        model.setParam(o.name + ".nsigmas", 1.5)
+        model.setParam(o.name + ".type", "rectangle")
     res = result(lambda: model._get_weights(p))
     emit({"tid": c["tid"], "ev": "SasviewGW", "par": par_record(p, model._model_info),
           "a": {"value": fstr(a["value"]), "n": int(a["n"]), "width": fstr(a["width"]),
